@@ -238,7 +238,7 @@ func (c18) Gen(seed uint64, run int, tier string) *core.Case {
 		// fault configuration
 		nf := 1 + r.IntN(3)
 		for i := 0; i < nf; i++ {
-			p.LinkFaults = append(p.LinkFaults, env.LinkFault{Call: 1 + r.IntN(3*len(p.Ops)), Kind: []string{"refuse", "503", "lost-response", "stall"}[r.IntN(4)]})
+			p.LinkFaults = append(p.LinkFaults, env.LinkFault{Step: 2 + r.IntN(len(p.Ops)), Nth: 1 + r.IntN(3), Kind: []string{"refuse", "503", "lost-response", "lost-response", "stall"}[r.IntN(5)]})
 		}
 	}
 	c := &core.Case{Check: "C18", Property: "C18", Seed: seed, Cfg: cfg}
@@ -550,6 +550,7 @@ func (c18) Exec(c *core.Case) (out *core.Outcome) {
 		for _, n := range up.Fired {
 			firedBefore += n
 		}
+		up.Step, up.StepCalls = i+1, 0
 		rp := P.cl.Do(P.build(op, c.Seed))
 		P.learn(op, rp)
 		firedNow := 0
@@ -588,7 +589,7 @@ func (c18) Exec(c *core.Case) (out *core.Outcome) {
 			continue
 		}
 		if rd.Resp.Status != rp.Resp.Status {
-			viol("status", "status differs")
+			viol(fmt.Sprintf("status:%d>%d%s", rd.Resp.Status, rp.Resp.Status, c18Code(rp.Resp)), "status differs")
 			if c18Mutates(op.Kind) && rd.Resp.OK() != rp.Resp.OK() {
 				break // the two sides no longer hold the same state
 			}
@@ -596,7 +597,7 @@ func (c18) Exec(c *core.Case) (out *core.Outcome) {
 		}
 		if !rd.Resp.OK() {
 			if rd.Resp.ErrCode() != rp.Resp.ErrCode() {
-				viol("error-code", "error code differs: %q vs %q", rd.Resp.ErrCode(), rp.Resp.ErrCode())
+				viol(fmt.Sprintf("error-code:%s>%s", rd.Resp.ErrCode(), rp.Resp.ErrCode()), "error code differs: %q vs %q", rd.Resp.ErrCode(), rp.Resp.ErrCode())
 				continue
 			}
 			o.Probe("pair_error_agrees")
@@ -613,7 +614,12 @@ func (c18) Exec(c *core.Case) (out *core.Outcome) {
 					a, b = strings.Trim(a, `"`), strings.Trim(b, `"`)
 				}
 				if a != b {
-					viol("header:"+h, "%s: %q vs %q", h, a, b)
+					what := "header:" + h
+					switch h {
+					case "Content-Type", "Content-Encoding", "x-amz-checksum-type", "Accept-Ranges", "x-amz-storage-class", "x-amz-delete-marker":
+						what += fmt.Sprintf(":%s>%s", a, b) // small value domains: part of the signature
+					}
+					viol(what, "%s: %q vs %q", h, a, b)
 					bad = true
 				}
 			}
@@ -789,4 +795,11 @@ func c18Mutates(kind string) bool {
 		return false
 	}
 	return true
+}
+
+func c18Code(r *s3c.Resp) string {
+	if r.OK() {
+		return ""
+	}
+	return "-" + r.ErrCode()
 }
